@@ -11,7 +11,10 @@ def print_output(dRunInfo):
 
     sOutputString += " "
 
-    if dRunInfo["severities"]["Error"] == 0:
+    # a file is in error when any violation of an error-type severity (built in or user defined) was reported
+    iErrors = dRunInfo.get("error_type_violations", dRunInfo["severities"]["Error"])
+
+    if iErrors == 0:
         sOutputString += "OK"
     else:
         sOutputString += "ERROR"
@@ -28,7 +31,7 @@ def print_output(dRunInfo):
         sOutputString += ": "
         sOutputString += str(dRunInfo["severities"][sSeverity])
         sOutputString += "]"
-    if dRunInfo["severities"]["Error"] == 0:
+    if iErrors == 0:
         return sOutputString, None
     else:
         return None, sOutputString
